@@ -149,6 +149,8 @@ pub fn hand(b: &mut Builder) {
     b.program("cs_u8", Desc::Cs(Sc::U8));
     b.program("cs_string", Desc::Cs(Sc::Str));
     b.program("vec_cs_i32", Desc::Vec(bx(Desc::Cs(Sc::I32))));
+    b.program("phantom", Desc::Phantom);
+    b.program("vec_phantom", Desc::Vec(bx(Desc::Phantom)));
     b.program("json", Desc::Json);
     b.program("vec_json", Desc::Vec(bx(Desc::Json)));
     b.program("btreemap_string_json", Desc::BTreeMap(KeyTy::Str, bx(Desc::Json)));
@@ -529,6 +531,7 @@ fn gen_desc(b: &mut Builder, rng: &mut Rng, depth: usize, named_from: usize) -> 
             let n = 2 + rng.below(2);
             Desc::Tuple((0..n).map(|_| gen_desc(b, rng, depth - 1, named_from)).collect())
         }
+        12 if rng.chance(1, 4) => Desc::Phantom,
         12 => Desc::Cs(*rng.pick(&[Sc::U8, Sc::Str, Sc::I32, Sc::Bool])),
         _ => Desc::Json,
     }
